@@ -108,6 +108,8 @@ type FnEnc struct {
 	epochDeclared map[string]bool
 	rawUsed  map[string]bool
 	fbits    map[string]string
+	heapTouch int
+	specApps map[string]bool
 	rawOrder []string
 	usedContracts map[string]bool
 	top      *frame
@@ -278,6 +280,7 @@ func (e *FnEnc) cellHeapKey(t types.Type) (key, sort string) {
 }
 
 func (e *FnEnc) heapGet(h Heap, key, sort string) string {
+	e.heapTouch++
 	if v, ok := h[key]; ok {
 		if strings.HasPrefix(v, "?") {
 			e.R.heapConst(key, sort)
